@@ -20,6 +20,7 @@ import base64
 import itertools
 import json
 import struct
+import re
 import sys
 import xml.etree.ElementTree as ET
 
@@ -570,6 +571,16 @@ def gen_reader(dbmap_path, outp, tier):
                     body = sep.join(body[k:k + width] for k in range(0, len(body), width))
                     if isinstance(wrap76, str) and len(wrap76) > 1:
                         body = wrap76 + body + wrap76
+                if body.startswith("<") and not body.startswith("<![CDATA[") and tag not in ("string", "ProtectedString"):
+                    # a composite value: Roblox itself writes every child element on a line of its
+                    # own; comments may stand between them like between any elements
+                    sep = None
+                    if "composite-ws" in extras:
+                        sep = "\n\t\t\t"
+                    if "composite-comments" in extras:
+                        sep = (sep or "") + "<!-- c -->" + (sep or " ")
+                    if sep is not None:
+                        body = sep + re.sub(r"(</[A-Za-z0-9]+>)(<[A-Za-z])", lambda m: m.group(1) + sep + m.group(2), body) + sep
                 inner.append(prop_xml(tag, name, body))
             # Name can be anywhere among the properties
             if prop_perm is not None:
@@ -689,7 +700,7 @@ def gen_reader(dbmap_path, outp, tier):
         for indent in ("none", "newline", "tabs", "spaces"):
             doc, mode = render(dom, base_refs, None, indent, set(), False, False)
             emit(doc, exp, "indentation", mode)
-        for ex in ("meta-first", "meta-last", "external-first", "external-last", "studio-attrs", "declaration", "leading-ws", "props-after-children", "comments"):
+        for ex in ("meta-first", "meta-last", "external-first", "external-last", "studio-attrs", "declaration", "leading-ws", "props-after-children", "comments", "composite-ws", "composite-comments"):
             doc, mode = render(dom, base_refs, None, "newline", {ex}, False, False)
             emit(doc, exp, "optional:" + ex, mode)
         doc, mode = render(dom, base_refs, None, "newline", {"meta-first", "external-first", "studio-attrs", "declaration"}, False, False)
@@ -706,7 +717,7 @@ def gen_reader(dbmap_path, outp, tier):
     # two degrees of freedom at a time: the full product of the values of every pair of
     # dimensions, the others at their base value (thorough: every subset of the optional
     # elements x indentation x SharedStrings position)
-    all_extras = ("meta-first", "meta-last", "external-first", "external-last", "studio-attrs", "declaration", "leading-ws", "props-after-children", "comments")
+    all_extras = ("meta-first", "meta-last", "external-first", "external-last", "studio-attrs", "declaration", "leading-ws", "props-after-children", "comments", "composite-ws", "composite-comments")
     for dom in doms:
         n = len(dom[2])
         exp = expected_of(dom)
